@@ -56,10 +56,70 @@ def oracle_svcstart(case, impl):
         return "an address could not be bound (%s) but Start did not report the error (%s)" % (kind, res)
     return None
 
+def oracle_svclife(case, impl, want="all"):
+    """a history of Start / Stop / Restart / listener death on ONE real proxySvc (case `svclife <n> <ops>`), stated directly:
+    c16: a successful Start or Restart leaves every address serving, a failed Start none, Stop leaves none and returns;
+    c20: the OnStopped round (router Restore, deactivation) runs exactly once at the first Stop after an OnStarted round
+         (Setup, activation), never twice for one stop, and Restart runs neither."""
+    f = case.split(" ")
+    if impl == "bad-op":
+        return None
+    toks = impl.split(" ")
+    if len(toks) != len(f[2]):
+        return "the history did not complete: " + impl[:80]
+    ups = downs = 0
+    pending = False          # an OnStarted round not yet followed by an OnStopped round
+    prev = ""
+    for op, t in zip(f[2], toks):
+        m = re.match(r"(\w)=(\w+),(\d+),(\d+),([01])$", t)
+        if not m or m.group(1) != op:
+            return "unexpected harness token " + t
+        ret, u, d, sv = m.group(2), int(m.group(3)), int(m.group(4)), m.group(5) == "1"
+        if ret == "hung":
+            return "%s did not return within 9 s (history %s)" % ({"S": "Start", "F": "Start", "T": "Stop", "R": "Restart"}.get(op, op), f[2])
+        if want in ("all", "c16"):
+            if op == "S" and (ret != "ok" or not sv):
+                return "every address was free but Start %s and serving=%d (history %s)" % (ret, sv, f[2])
+            if op == "F" and (ret != "err" or sv):
+                return "an address was taken but Start returned %s and serving=%d (history %s)" % (ret, sv, f[2])
+            if op == "R" and (ret != "ok" or not sv):
+                return ("Restart %s and serving=%d: the addresses of the stopped instance could not be bound again at once (history %s)"
+                        % (ret, sv, f[2]))
+            if op in "TK" and sv:
+                return "after %s the listen addresses still accept connections (history %s)" % ("Stop" if op == "T" else "the listeners died", f[2])
+            if op == "S" and u != ups + 1:
+                return "Start succeeded and the OnStarted round ran %d times (history %s)" % (u - ups, f[2])
+            if op == "F" and u != ups:
+                return "a failed Start ran the OnStarted hooks (history %s)" % f[2]
+        if want in ("all", "c20"):
+            if op == "R" and (u != ups or d != downs):
+                return "Restart ran a hook round (OnStarted %+d, OnStopped %+d) (history %s)" % (u - ups, d - downs, f[2])
+            if op == "T":
+                if pending and d != downs + 1:
+                    return ("the service had run its OnStarted round (router Setup, activation) and Stop ran the OnStopped round %d times: "
+                            "the router keeps pointing at a stopped proxy (history %s)" % (d - downs, f[2]))
+                if prev == "T" and d != downs:
+                    return "a second Stop ran the OnStopped round again (history %s)" % f[2]
+                if d > downs + 1:
+                    return "one Stop ran the OnStopped round %d times (history %s)" % (d - downs, f[2])
+            if op in "SFK" and d != downs:
+                return "the OnStopped round ran without a Stop (history %s)" % f[2]
+        if op == "S" and ret == "ok":
+            pending = True
+        if op == "T":
+            pending = False
+        ups, downs, prev = u, d, op
+    return None
+
+
+def oracle_svc(case, impl):
+    return oracle_svclife(case, impl, "c16") if case.startswith("svclife ") else oracle_svcstart(case, impl)
+
+
 SPEC = dict(
     lean_module="NV.Props.C16",
     areas=[dict(name="listen", n_quick=150, n_thorough=2400, shards_thorough=8, oracle=oracle_listen, timeout=900),
-           dict(name="svcstart", binary="main.test", n_quick=6, n_thorough=18, shards_thorough=1, oracle=oracle_svcstart, timeout=300)],
+           dict(name="svcstart", binary="main.test", n_quick=6, n_thorough=24, shards_thorough=1, oracle=oracle_svc, timeout=400)],
     level_text="The start-up/shutdown protocol of ListenAndServe is modelled as a small-step system with ANY number of listener threads; "
                "kernel-checked invariants over all interleavings give: no bound socket at return, the bind error is the one returned "
                "(no external stop), no deadlock after cancellation and a strictly decreasing rank (termination). The pre-repair protocol "
